@@ -60,6 +60,9 @@ class _Normalise(ast.NodeTransformer):
             return node
         tgts = node.targets[0].elts
         v = node.value
+        split = _split_parallel_assign(node)
+        if split is not None:
+            return split
         if not all(isinstance(t, ast.Name) for t in tgts) or not isinstance(v, (ast.GeneratorExp, ast.ListComp)) or len(v.generators) != 1:
             return node
         gen = v.generators[0]
@@ -100,6 +103,36 @@ class _Normalise(ast.NodeTransformer):
             elt = Sub().visit(elt)
             out.append(ast.copy_location(ast.Assign(targets=[ast.Name(id=t.id, ctx=ast.Store())], value=elt, type_comment=None), node))
         return out
+
+    def visit_If(self, node):
+        """`if (x := E) OP ...:` with the assignment expression as the first thing the test evaluates is `x = E` followed by
+        `if x OP ...:` (same evaluation order; an `elif` is an `if` inside the else arm, where the assignment then stands)."""
+        self.generic_visit(node)
+        holder, field, idx = None, None, None
+        cur, parent = node.test, (node, 'test', None)
+        while True:
+            if isinstance(cur, ast.NamedExpr):
+                break
+            if isinstance(cur, ast.BoolOp):
+                parent, cur = (cur, 'values', 0), cur.values[0]
+            elif isinstance(cur, ast.Compare):
+                parent, cur = (cur, 'left', None), cur.left
+            elif isinstance(cur, ast.UnaryOp):
+                parent, cur = (cur, 'operand', None), cur.operand
+            elif isinstance(cur, ast.BinOp):
+                parent, cur = (cur, 'left', None), cur.left
+            else:
+                return node
+        if not isinstance(cur.target, ast.Name):
+            return node
+        holder, field, idx = parent
+        load = ast.copy_location(ast.Name(id=cur.target.id, ctx=ast.Load()), cur)
+        if idx is None:
+            setattr(holder, field, load)
+        else:
+            getattr(holder, field)[idx] = load
+        assign = ast.copy_location(ast.Assign(targets=[ast.copy_location(ast.Name(id=cur.target.id, ctx=ast.Store()), cur)], value=cur.value, type_comment=None), node)
+        return [assign, node]
 
     def visit_For(self, node):
         """`for T in map(f, xs): BODY` is `for _m in xs: T = f(_m); BODY`: map is lazy, so f is applied to each element right
@@ -291,6 +324,7 @@ class _Normalise(ast.NodeTransformer):
         self.generic_visit(node)
         self._search_with_return(node)
         self._unused_enumerate(node)
+        _counter_updates(node)
         node.returns = None
         for a in node.args.posonlyargs + node.args.args + node.args.kwonlyargs:
             a.annotation = None
@@ -302,6 +336,66 @@ class _Normalise(ast.NodeTransformer):
 
     visit_FunctionDef = _fn
     visit_AsyncFunctionDef = _fn
+
+
+def _split_parallel_assign(node):
+    """`a, b = X, Y` with plain local names on the left and, on the right, displays / constants / calls that mention none of the
+    targets is `a = X; b = Y` (same evaluation order; nothing on the right can see a target).  None when it does not apply."""
+    tgt, v = node.targets[0], node.value
+    if not isinstance(v, (ast.Tuple, ast.List)) or len(v.elts) != len(tgt.elts) or len(tgt.elts) < 2:
+        return None
+    if not all(isinstance(t, ast.Name) for t in tgt.elts) or any(isinstance(e, ast.Starred) for e in v.elts):
+        return None
+    names = [t.id for t in tgt.elts]
+    if len(set(names)) != len(names):
+        return None
+    for e in v.elts:
+        for n in ast.walk(e):
+            if isinstance(n, ast.Name) and n.id in names:
+                return None
+            if isinstance(n, (ast.NamedExpr, ast.Lambda, ast.Yield, ast.YieldFrom, ast.Await)):
+                return None
+    out = []
+    for t, e in zip(tgt.elts, v.elts):
+        st = ast.Assign(targets=[ast.Name(id=t.id, ctx=ast.Store())], value=e, type_comment=None)
+        out.append(ast.copy_location(st, node))
+        ast.copy_location(st.targets[0], t)
+    return out
+
+
+def _counter_updates(fn):
+    """`n = n + e` / `n = n - e` on a local integer counter is `n += e` / `n -= e`.  A counter is a plain local whose every other
+    binding in the function is an integer constant or an augmented assignment (so no aliasing question arises: integers are
+    immutable, the two spellings cannot be told apart)."""
+    own = list(_own_nodes(fn))
+    params = {a.arg for a in fn.args.posonlyargs + fn.args.args + fn.args.kwonlyargs}
+    rebinds = {}
+    for n in own:
+        if isinstance(n, ast.Assign) and len(n.targets) == 1 and isinstance(n.targets[0], ast.Name):
+            rebinds.setdefault(n.targets[0].id, []).append(n)
+        elif isinstance(n, ast.Name) and isinstance(n.ctx, (ast.Store, ast.Del)):
+            rebinds.setdefault(n.id, [])
+    stores = {}
+    for n in own:
+        if isinstance(n, ast.Name) and isinstance(n.ctx, (ast.Store, ast.Del)):
+            stores[n.id] = stores.get(n.id, 0) + 1
+    for name, assigns in rebinds.items():
+        if name in params or not assigns:
+            continue
+        consts = [a for a in assigns if isinstance(a.value, ast.Constant) and isinstance(a.value.value, int) and not isinstance(a.value.value, bool)]
+        steps = [a for a in assigns if isinstance(a.value, ast.BinOp) and isinstance(a.value.op, (ast.Add, ast.Sub))
+                 and isinstance(a.value.left, ast.Name) and a.value.left.id == name
+                 and not any(isinstance(x, ast.Name) and x.id == name for x in ast.walk(a.value.right))]
+        augs = [n for n in own if isinstance(n, ast.AugAssign) and isinstance(n.target, ast.Name) and n.target.id == name]
+        if not consts or not steps or len(consts) + len(steps) != len(assigns) or stores.get(name, 0) != len(assigns) + len(augs):
+            continue
+        for a in steps:
+            new = ast.AugAssign(target=ast.Name(id=name, ctx=ast.Store()), op=a.value.op, value=a.value.right)
+            ast.copy_location(new, a)
+            ast.copy_location(new.target, a.targets[0])
+            a.__class__ = ast.AugAssign
+            a.__dict__.clear()
+            a.__dict__.update(new.__dict__)
 
 
 ACC = '_collected'
@@ -459,6 +553,9 @@ def _simple_record_class(cls):
             methods[st.name] = st
         elif isinstance(st, ast.Expr) and isinstance(st.value, ast.Constant):
             continue
+        elif (isinstance(st, ast.Assign) and len(st.targets) == 1 and isinstance(st.targets[0], ast.Name) and st.targets[0].id == '__slots__'
+              and (isinstance(st.value, ast.Constant) or (isinstance(st.value, (ast.Tuple, ast.List)) and all(isinstance(e, ast.Constant) for e in st.value.elts)))):
+            continue        # __slots__ = ('a', 'b'): only how the record stores its fields
         else:
             return None
     if '__init__' not in methods or any(n.startswith('__') and n != '__init__' for n in methods):
@@ -562,7 +659,8 @@ def _scalar_replace(fn, classes):
     object is replaced by one local per attribute and its methods are inlined (the object never escapes, so nothing else can
     observe the difference).  Returns True when fn was rewritten."""
     changed = False
-    for st in list(fn.body):
+    # the construction may stand anywhere in the function (e.g. once per iteration of the item loop), not only at its top level
+    for st in [n for n in _own_nodes(fn) if isinstance(n, ast.Assign)]:
         if not (isinstance(st, ast.Assign) and len(st.targets) == 1 and isinstance(st.targets[0], ast.Name) and isinstance(st.value, ast.Call)
                 and isinstance(st.value.func, ast.Name) and st.value.func.id in classes):
             continue
@@ -1051,6 +1149,15 @@ class Report:
         """Part of the code was not understood.  The run goes on (a violation established elsewhere must not be masked); if it
         ends without findings the verdict is 'no verdict' with this message."""
         self.__dict__.setdefault('_undecided', []).append(str(message))
+
+    def attempt(self, rule_fn, *args, **kwargs):
+        """Run one rule; a no-verdict inside it (AnalysisError) is deferred like `undecided`, so that it cannot mask a violation
+        another rule of the same run establishes.  Returns the rule's result, or None when it gave no verdict."""
+        try:
+            return rule_fn(*args, **kwargs)
+        except AnalysisError as e:
+            self.undecided(str(e))
+            return None
 
     def check_floors(self):
         """Evaluated by the runner when no violation was found: a vacuous pass is analysis-broken, but a floor must not
